@@ -244,11 +244,50 @@ package core
 //@   modifies f.inner, f.next
 //@   sets initNext = f.next
 //@   ensures result == nil ==> f.inner != nil
+// Insert(bloom, b): for a block of the window, only column b - fromBlock changes, bits are only ever
+// SET (an inserted block never loses a candidate: no false negatives), and a set bit r of the block's
+// bloom makes (row r, that column) set; outside the window nothing changes and the range error is
+// returned. NextSetMany is assumed to fill the buffer with the indices of the set bits, in range.
+//@ ghost func bloomBits(f *bloom.BloomFilter) *bitset.BitSet
+//@ extern func github.com/bits-and-blooms/bloom/v3.(*BloomFilter).BitSet
+//@   ensures result != nil && result == bloomBits(f)
+//@ extern func github.com/bits-and-blooms/bitset.(*BitSet).Count
+//@   ensures result <= blen(*b)
+//@ extern func github.com/bits-and-blooms/bitset.(*BitSet).NextSetMany
+//@   requires b != nil
+//@   modifies buffer[0..len(buffer)]
+//@   ensures len(result1) <= len(buffer) && (forall k int :: 0 <= k && k < len(buffer) ==> 0 <= buffer[k] && buffer[k] < blen(*b) && bit(*b, buffer[k]))
+//@ extern func github.com/bits-and-blooms/bitset.(*BitSet).Set
+//@   requires b != nil
+//@   modifies *b
+//@   ensures result == b && (forall j mathint :: bit(*b, j) <==> (old(bit(*b, j)) || j == i))
 //@ func (*AggregatedBloomFilter).Insert
-//@   trusted
+//@   props C09
+//@   arith int
+//@   requires f != nil && len(f.bitmap) == 8192
+//@   modifies f.bitmap[0..8192]
+//@   loop 1: invariant column_only: len(f.bitmap) == 8192 && f.bitmap == old(f.bitmap) && -1 <= rangeindex && rangeindex < len(setBitIndices) && (forall r int, j mathint :: 0 <= r && r < 8192 ==> (old(bit(f.bitmap[r], j)) ==> bit(f.bitmap[r], j)) && (bit(f.bitmap[r], j) && j != blockNumber - f.fromBlock ==> old(bit(f.bitmap[r], j))))
+//@   loop 1: invariant set_so_far: forall k int :: 0 <= k && k <= rangeindex ==> bit(f.bitmap[setBitIndices[k]], blockNumber - f.fromBlock)
+//@   loop 1: invariant indices_in_range: forall k int :: 0 <= k && k < len(setBitIndices) ==> 0 <= setBitIndices[k] && setBitIndices[k] < 8192
+//@   ensures outside_the_window: (blockNumber < f.fromBlock || blockNumber > f.toBlock) ==> result == ErrAggregatedBloomFilterBlockOutOfRange && (forall r int :: 0 <= r && r < 8192 ==> f.bitmap[r] == old(f.bitmap[r]))
+//@   ensures inside_the_window_accepted: f.fromBlock <= blockNumber && blockNumber <= f.toBlock ==> result != ErrAggregatedBloomFilterBlockOutOfRange && (filter == nil ==> result == nil)
+//@   ensures only_that_column_and_only_set: forall r int, j mathint :: 0 <= r && r < 8192 ==> (old(bit(f.bitmap[r], j)) ==> bit(f.bitmap[r], j)) && (bit(f.bitmap[r], j) && j != blockNumber - f.fromBlock ==> old(bit(f.bitmap[r], j)))
+// clear(b): for a block of the window, column b - fromBlock is cleared in EVERY row and no other column
+// of any row changes; for a block outside the window nothing changes and the range error is returned.
+//@ extern func github.com/bits-and-blooms/bitset.(*BitSet).Clear
+//@   requires b != nil
+//@   modifies *b
+//@   ensures result == b && blen(*b) == old(blen(*b)) && (forall j mathint :: bit(*b, j) <==> (old(bit(*b, j)) && j != i))
 //@ func (*AggregatedBloomFilter).clear
-//@   trusted
+//@   props C09
 //@   logged as clearBlock
+//@   arith int
+//@   requires f != nil && len(f.bitmap) == 8192
+//@   modifies f.bitmap[0..8192]
+//@   loop 1: invariant rows_so_far: 0 <= index && index < 8192 && len(f.bitmap) == 8192 && f.bitmap == old(f.bitmap) && (forall r int, j mathint :: 0 <= r && r < index ==> (bit(f.bitmap[r], j) <==> (old(bit(f.bitmap[r], j)) && j != blockNumber - f.fromBlock)))
+//@   loop 1: invariant later_rows_untouched: forall r int :: index <= r && r < 8192 ==> f.bitmap[r] == old(f.bitmap[r])
+//@   ensures outside_the_window: (blockNumber < f.fromBlock || blockNumber > f.toBlock) ==> result == ErrAggregatedBloomFilterBlockOutOfRange && (forall r int :: 0 <= r && r < 8192 ==> f.bitmap[r] == old(f.bitmap[r]))
+//@   ensures only_that_column: f.fromBlock <= blockNumber && blockNumber <= f.toBlock ==> result == nil && (forall r int, j mathint :: 0 <= r && r < 8192 ==> (bit(f.bitmap[r], j) <==> (old(bit(f.bitmap[r], j)) && j != blockNumber - f.fromBlock)))
 //@ func WriteAggregatedBloomFilter
 //@   trusted
 //@   logged
@@ -262,6 +301,7 @@ package core
 //@   props C05
 //@   arith int
 //@   nosafe
+//@   assumecalleepre
 //@   requires f != nil
 //@   modifies *
 //@   assigns calls_WriteAggregatedBloomFilter, arg_WriteAggregatedBloomFilter_w, arg_WriteAggregatedBloomFilter_filter
@@ -275,6 +315,7 @@ package core
 //@   props C05, C04, C09
 //@   arith int
 //@   nosafe
+//@   assumecalleepre
 //@   requires f != nil
 //@   modifies *
 //@   assigns calls_DeleteAggregatedBloomFilter, arg_DeleteAggregatedBloomFilter_w, arg_DeleteAggregatedBloomFilter_fromBlock, arg_DeleteAggregatedBloomFilter_toBlock, calls_DeleteSnapshot, arg_DeleteSnapshot_w, initNext, calls_clearBlock, arg_clearBlock_blockNumber
@@ -317,9 +358,15 @@ package core
 //@ func GetAggregatedBloomFilter
 //@   trusted
 //@   ownpackage
-//@ func NewAggregatedFilter
+// A new window: 8192 rows (what Insert, clear and the candidate look-ups index), [from, from+8191].
+//@ func makeBitset
 //@   trusted
+//@ func NewAggregatedFilter
+//@   props C09
 //@   ownpackage
+//@   arith int
+//@   requires fromBlock < (1<<64) - 8192
+//@   ensures a_window_of_8192_rows: len(result.bitmap) == 8192 && result.fromBlock == fromBlock && result.toBlock == fromBlock + 8191
 //@ func rebuildRunningEventFilter
 //@   props C09 C05
 //@   arith int
